@@ -9,4 +9,4 @@ MANIFEST = dict(
 EXPLANATION = "Same units as C05, read for the flag/tightness side."
 ASSUMPTIONS = ["G1 (cell within its largest centre-to-vertex distance of its centre): assumed", "to_bmoc_packing = pack (C15 bounded contract)"]
 def units():
-    return recur_units() + [threshold_unit(), full_flag_unit()] + allsky_units()
+    return recur_units() + [threshold_unit(), threshold_struct_unit(), full_flag_unit()] + allsky_units()
